@@ -27,6 +27,7 @@ META = {
                     'scale oracle: own walk of unit.definition'],
 }
 META['bounds'].append("user program 'rejected': a duplicate type / unit declaration is rejected, then 6 products / quotients; scalars: inexact floats 0.1, 0.3, 0.7 on decimal and fraction amounts")
+META['bounds'].append('every unit paired with itself (113 pairs): same-unit quotients also in reference-less types')
 
 
 def setup(mode):
